@@ -59,6 +59,10 @@ DIVERGING_HINT = ("panic", "unwrap_failed", "expect_failed", "begin_panic", "unr
                   "handle_alloc_error", "exit", "abort")
 
 
+_FOLD = {"Eq": lambda a, b: a == b, "Ne": lambda a, b: a != b, "Lt": lambda a, b: a < b, "Le": lambda a, b: a <= b,
+         "Gt": lambda a, b: a > b, "Ge": lambda a, b: a >= b}
+
+
 class TooManyPaths(Exception):
     pass
 
@@ -311,9 +315,17 @@ class Walker:
                 return x   # Box deref lowering: NonNull<T> as *const T
             return ("cast", x, rv["ty"], ck)
         if k == "binop":
-            return ("binop", rv["op"], self.operand(env, mem, rv["l"]), self.operand(env, mem, rv["r"]))
+            l, r = self.operand(env, mem, rv["l"]), self.operand(env, mem, rv["r"])
+            op = rv["op"]
+            if l[0] == "const" and r[0] == "const" and l[3] is not None and r[3] is not None and op in _FOLD:
+                v = _FOLD[op](l[3], r[3])
+                return ("const", "bool", "true" if v else "false", 1 if v else 0)
+            return ("binop", op, l, r)
         if k == "unop":
-            return ("unop", rv["op"], self.operand(env, mem, rv["x"]))
+            x = self.operand(env, mem, rv["x"])
+            if rv["op"] == "Not" and x[0] == "const" and x[1] == "bool" and x[3] is not None:
+                return ("const", "bool", "false" if x[3] else "true", 0 if x[3] else 1)
+            return ("unop", rv["op"], x)
         if k == "discriminant":
             return ("discr", self.place(env, mem, rv["place"]), tuple((v, n) for v, n in rv["variants"]))
         if k == "aggregate":
